@@ -1,6 +1,7 @@
 """Runtime support for lifted modules: call dispatch and models of builtins."""
 from __future__ import annotations
 
+import bisect
 import builtins
 import io
 import itertools
@@ -470,6 +471,36 @@ def m_splitext(p):
 
 
 FUNC_MODELS[posixpath.splitext] = m_splitext
+
+
+def m_bisect_right(a, x, lo=0, hi=None, *, key=None):
+    """bisect.bisect_right in python: the comparisons go through the proxies"""
+    if hi is None:
+        hi = len(a)
+    while lo < hi:
+        mid = (lo + hi) // 2
+        if (x < a[mid]) if key is None else (x < key(a[mid])):
+            hi = mid
+        else:
+            lo = mid + 1
+    return lo
+
+
+def m_bisect_left(a, x, lo=0, hi=None, *, key=None):
+    if hi is None:
+        hi = len(a)
+    while lo < hi:
+        mid = (lo + hi) // 2
+        if (a[mid] < x) if key is None else (key(a[mid]) < x):
+            lo = mid + 1
+        else:
+            hi = mid
+    return lo
+
+
+FUNC_MODELS[bisect.bisect_right] = m_bisect_right
+FUNC_MODELS[bisect.bisect] = m_bisect_right
+FUNC_MODELS[bisect.bisect_left] = m_bisect_left
 
 
 def m_map(fn, *iterables):
